@@ -180,7 +180,11 @@ func (e *Env) doSched(op *Op) {
 		}
 	}
 	// drain: run everything to completion round robin (bounded)
-	deadline := time.Now().Add(e.watchdog)
+	dl := e.watchdog
+	if dl < 10*time.Second {
+		dl = 10 * time.Second // generous: a slow machine must not look like a stuck process
+	}
+	deadline := time.Now().Add(dl)
 	for time.Now().Before(deadline) {
 		all := true
 		for _, p := range procs {
